@@ -8,7 +8,7 @@ import numpy as np
 import torch
 import torchtt
 
-from rt_common import (case_id, clause, contract, dense, dtype_of, fro, rand_tt, seed_all, shape_of,
+from rt_common import (case_id, clause, contract, dense, dtype_of, fro, rand_tt, scale_tag, scale_tt, seed_all, shape_of,
                        snapshot_tt, unchanged, within)
 
 C = 100.0
@@ -135,13 +135,13 @@ def run_case(a, check):
     op = a["op"]
     if op == "tt_div_scalar":
         shape = [tuple(s) for s in a["N"]] if a.get("ttm") else N
-        x = rand_tt(torchtt, shape, a["rx"], dt)
+        x = scale_tt(torchtt, rand_tt(torchtt, shape, a["rx"], dt), a.get("s_x"))
         s = make_scalar(a["skind"], a["s"])
         check(None, lambda: tt_div_scalar(x, s))
         return
     y = make_y(N, a["rz"], dt)
     if op == "tt_div_tt":
-        x = rand_tt(torchtt, N, a["rx"], dt)
+        x = scale_tt(torchtt, rand_tt(torchtt, N, a["rx"], dt), a.get("s_x"))   # round 2: numerator norm far from 1
         seed_all(a["seed"] + 7919)
         check(None, lambda: tt_div_tt(x, y))
     elif op == "scalar_div_tt":
@@ -149,7 +149,7 @@ def run_case(a, check):
         seed_all(a["seed"] + 7919)
         check(None, lambda: scalar_div_tt(s, y))
     elif op == "elementwise_divide":
-        x = rand_tt(torchtt, N, a["rx"], dt)
+        x = scale_tt(torchtt, rand_tt(torchtt, N, a["rx"], dt), a.get("s_x"))
         g = None if a["guess"] is None else torchtt.random(N, a["guess"], dtype=dt)
         seed_all(a["seed"] + 7919)
         check(None, lambda: elementwise_divide(x, y, a["eps"], g, a["prec"]))
@@ -166,8 +166,47 @@ def _mk(op, N, seed, **kw):
             v = kw[k]
             parts.append("%s=%s" % (k, ("%g" % v) if isinstance(v, float) else v))
     parts.append("seed=%d" % seed)
+    if kw.get("s_x"):
+        parts.append("x:" + scale_tag(kw["s_x"]))
     a["id"] = ".".join(parts)
     return a
+
+
+def scaled_cases(tier, seed):
+    """Round 2 family: numerators whose norm is 1e-6 / 1e6 (and wildly different core scales); relative contract unchanged."""
+    quick = tier == "quick"
+    cases = []
+    specs = [{"mode": "one", "factor": 1e-6, "core": 0}, {"mode": "one", "factor": 1e6, "core": -1},
+             {"mode": "spread", "factor": 1e-6}, {"mode": "spread", "factor": 1e6}, {"mode": "alt", "p": 3}]
+    if not quick:
+        specs += [{"mode": "one", "factor": 1e6, "core": 0}, {"mode": "one", "factor": 1e-6, "core": -1},
+                  {"mode": "alt", "p": -3}, {"mode": "spread", "factor": -1e3}]
+    shapes = [[2, 3], [5, 4], [3, 4, 2], [3, 1, 4], [5, 5, 5]] if quick else [[2, 3], [5, 4], [1, 4], [3, 4, 2], [3, 1, 4], [5, 5, 5],
+                                                                          [2, 3, 2, 3], [2, 2, 3, 2, 2]]
+    seeds = [seed] if quick else [seed, 1]
+    for N in shapes:
+        for spec in specs:
+            for rx in ([2] if quick else [1, 3]):
+                for rz in ([1, 2] if quick else [1, 2]):
+                    for s in seeds:
+                        cases.append(_mk("tt_div_tt", N, s, rx=rx, rz=rz, s_x=spec))
+                        for eps in ([1e-4, 1e-8] if quick else [1e-3, 1e-6, 1e-8, 1e-10]):
+                            for g in (None, 2):
+                                for p in ((None,) if quick and g else (None, "c")):
+                                    cases.append(_mk("elementwise_divide", N, s, rx=rx, rz=rz, eps=eps, guess=g, prec=p, s_x=spec))
+        for rz in (1, 2):
+            for (skind, val) in [("float", 1e-6), ("float", -1e6), ("torch1", 1e6), ("float", 1e3)]:
+                for s in seeds:
+                    cases.append(_mk("scalar_div_tt", N, s, rz=rz, skind=skind, s=val))
+    for N in [[2, 3], [3, 1, 4], [(2, 2), (3, 2)]]:
+        ttm = isinstance(N[0], tuple)
+        for spec in specs:
+            for (skind, val) in [("float", 1e-6), ("float", 1e6), ("int", 3)]:
+                kw = dict(rx=2, skind=skind, s=val, s_x=spec)
+                if ttm:
+                    kw["ttm"] = True
+                cases.append(_mk("tt_div_scalar", N, seed, **kw))
+    return cases
 
 
 def enumerate_cases(tier, seed):
@@ -210,6 +249,7 @@ def enumerate_cases(tier, seed):
         for (skind, val) in [("float", 2.5), ("int", 3)]:
             for s in seeds:
                 cases.append(_mk("tt_div_scalar", N, s, rx=2, skind=skind, s=val, ttm=True))
+    cases += scaled_cases(tier, seed)
     return cases
 
 
@@ -224,6 +264,10 @@ def bound(tier, seed):
                 "100*tol*||x||; starting_tensor unchanged. x / s for s in {2.5, int 3, np.float64(-0.3), 0-d tensor 7.0, "
                 "1-element tensor 2.5} on TT tensors {[4],[2,3],[3,1,4],[2,3,2,3]} and TT matrices {[(2,3)],[(2,2),(3,2)],"
                 "[(2,1),(1,3),(2,2)]}: ||dense(x/s) - dense(x)/s|| <= 1e-14*||x/s||, x bit-for-bit unchanged, result does not "
-                "alias x's first core." % seed)
+                "alias x's first core. ROUND-2 FAMILY (numerators far from norm 1): shapes {[2,3],[5,4],[3,4,2],[3,1,4],[5,5,5]}, x "
+                "of rank 2 rescaled by {first core x1e-6, last core x1e6, 1e-6 spread, 1e6 spread, core k x10**(3(-1)**k)}, rz in "
+                "{1,2}: x / y, elementwise_divide (eps {1e-4,1e-8}, guess {None, rank 2}, preconditioner {None,'c'}), s / y for s in "
+                "{1e-6,-1e6,torch.tensor([1e6]),1e3}, and x / s for s in {1e-6,1e6,3} on rescaled x ([2,3],[3,1,4],[(2,2),(3,2)]); "
+                "same relative contracts." % seed)
     return ("C13 thorough: as quick with 14 shapes of order 2..5 (sizes 1..10), rx in {1,2,4}, rz in {1,2}, eps in "
             "{1e-3,1e-6,1e-8,1e-10} (tol = eps exactly), starting_tensor in {None, rank 1, rank 3}, seeds {%d,1,2}." % seed)
